@@ -181,6 +181,26 @@ DeliverDiff ==
                    [] n = "bal" -> bal' # o.s.bal [] n = "vest" -> vest' # o.s.vest [] n = "exists" -> exists' # o.s.exists
                    [] n = "grants" -> grants' # o.s.grants}>>
 
+\* the real exported genesis, as parsed by the harness (genproject.go), in the shape of Genesis!Gen
+LogGen(j) ==
+    [aolOwners  |-> MapOf({[k |-> e.k, v |-> e.n] : e \in R(j.aol.owners)}),
+     aolTopics  |-> MapOf({[k |-> e.k, v |-> [desc |-> e.desc, nw |-> e.nw, nr |-> e.nr]] : e \in R(j.aol.topics)}),
+     aolWriters |-> MapOf({[k |-> e.k, v |-> [mon |-> e.mon, desc |-> e.desc, ts |-> e.ts]] : e \in R(j.aol.writers)}),
+     aolRecords |-> MapOf({[k |-> e.k, v |-> [key |-> e.key, val |-> e.val, w |-> e.w, ts |-> e.ts]] : e \in R(j.aol.records)}),
+     did        |-> MapOf({[k |-> e.k, v |-> [doc |-> NDoc(e.doc), seq |-> e.seq]] : e \in R(j.did)}),
+     denoms     |-> {[id |-> e.id, v |-> [owner |-> e.owner, name |-> e.name, symbol |-> e.symbol, desc |-> e.desc, uri |-> e.uri, hash |-> e.hash, data |-> e.data]] : e \in R(j.denoms)},
+     pnfts      |-> {[denom |-> e.denom, id |-> e.id, v |-> [name |-> e.name, desc |-> e.desc, uri |-> e.uri, hash |-> e.hash, data |-> e.data,
+                                                           creator |-> e.creator, at |-> e.at, owner |-> e.owner]] : e \in R(j.pnfts)}]
+
+\* evaluated in the state BEFORE the export step (unprimed variables): the exported content is Genesis!Gen of that state, nothing
+\* unnameable, and the lists hold every denom / token once
+ExportContent(rec) ==
+    IF act'.name = "ExportImportBegin" /\ act'.exportOk /\ "genesis" \in DOMAIN rec
+    THEN /\ Drift("export-content", LogGen(rec.genesis) = Gen)
+         /\ Drift("export-junk", Len(rec.genesis.junk) = 0)
+         /\ Drift("export-duplicates", rec.genesis.nDenoms = Cardinality(Gen.denoms) /\ rec.genesis.nPnfts = Cardinality(Gen.pnfts))
+    ELSE TRUE
+
 Conformance ==
     /\ IF Dispatch THEN TRUE
        ELSE /\ Report("DRIFT", "step:" \o act'.name)
@@ -236,6 +256,7 @@ TraceNext ==
                  /\ StepProps
                  /\ StateProps
                  /\ Conformance
+                 /\ ExportContent(rec)
                  \* the harness' own bookkeeping of acknowledged records agrees with the specification's
                  /\ Drift("acked", acked' = acked \cup NewAcks(act', height))
 
